@@ -1,7 +1,7 @@
 HOOK_COMMITS = ["35ab1c0", "1b45154"]
 NOTES = ("All checks: ./check.sh <id> <tier>. Each run regenerates coq/Gen from /repo, rebuilds the proofs (full .vo), "
          "rebuilds the Go harness from /repo's working tree, runs the real code on generated cases and evaluates the Coq model on "
-         "the same cases. Trusted base and per-property limits: DESIGN.md sections 4 and 6, and each evidence file.")
+         "the same cases. Trusted base and per-property limits: DESIGN.md sections 3 and 5, and each evidence file.")
 NOT_YET = {}
 CHECKS = {
     "C01": {
